@@ -14,6 +14,8 @@ def step (_ : Unit) (j : Json) : Unit × Json :=
   let g2 := if boolD j "mergePackage" then mergeGraph mergePackage g1 else g1
   let d := display (strs j "filters") g2
   let edges := sortStrs (d.2.map fun p => p.1 ++ " -> " ++ p.2)
+  -- through the command (`coca arch`, case marked cli) only the drawn graph is observable
+  if boolD j "cli" then ((), Json.mkObj [("nodes", mkStrs (sortStrs d.1)), ("edges", mkStrs edges)]) else
   ((), Json.mkObj [("nodes", mkStrs (sortStrs d.1)), ("edges", mkStrs edges),
                    ("allNodes", mkStrs (sortStrs (GoMap.keys g2.nodes))),
                    ("allRels", mkStrs (sortStrs ((GoMap.keys g2.rels).map fun p => p.1 ++ " -> " ++ p.2)))])
